@@ -24,9 +24,12 @@ for f in $CANDS; do
   if [ $r -eq 1 ]; then KEEP="$f"; break; fi
 done
 [ -n "$KEEP" ] || { echo "$ORIGIN: no replayable violation among $(echo $CANDS | wc -w) candidates"; exit 5; }
-git -C /repo checkout -- .
-./run.sh replay "$KEEP" > /tmp/mkr.replay 2>&1; r=$?
-[ $r -eq 0 ] || { echo "$ORIGIN: replay of $KEEP does not pass on the unchanged tree (exit $r)"; exit 6; }
+if [ -z "${NOCLEAN:-}" ]; then
+  # (with NOCLEAN=1 the caller verifies all saved files on the unchanged tree in one pass at the end: tools/regress_all.sh)
+  git -C /repo checkout -- .
+  ./run.sh replay "$KEEP" > /tmp/mkr.replay 2>&1; r=$?
+  [ $r -eq 0 ] || { echo "$ORIGIN: replay of $KEEP does not pass on the unchanged tree (exit $r)"; exit 6; }
+fi
 python3 - "$KEEP" "regress/$ID-$ORIGIN.json" "$ORIGIN" <<'PY'
 import json, sys
 j = json.load(open(sys.argv[1]))
